@@ -11,8 +11,6 @@ impl StatusCode {
     pub const BadTcpMessageTooLarge: StatusCode = StatusCode { bits: 0x8080_0000 };
 }
 pub struct DecodingOptions { pub max_message_size: usize }
-#[derive(Clone, Copy, PartialEq, Eq, Structural)]
-pub struct MessageHeader { pub message_type: u8, pub message_size: u32 }
 pub struct Message { pub id: int }
 pub mod io {
     use vstd::prelude::*;
@@ -172,7 +170,7 @@ def build_for(manifest, pid):
     a = Asm()
     a.add('use vstd::prelude::*;\nverus! {\nglobal size_of usize == 8;\n', 'prelude', 'env')
     a.add(norm_vis(tt.const('MESSAGE_HEADER_LEN')), 'consts', 'env')
-    a.add(norm_vis(src.struct('TcpCodec')), 'types', 'env')
+    a.add(norm_vis(tt.enum('MessageType')) + '\n' + norm_vis(tt.struct('MessageHeader', derive='Clone, Copy, PartialEq, Eq, Structural')) + '\n' + norm_vis(src.struct('TcpCodec')), 'types', 'env')
     a.add(ENV, 'env', 'env')
     a.add('impl TcpCodec {')
     a.add(f, 'decode', 'fn')
